@@ -194,6 +194,16 @@ def main : IO Unit := do
   firstDiff "Sampler::process" ((pairs samplers [0, 7, 18446744073709551615]).filter (fun (s, t) => (s.tsSum + t) / s.bucket < 2^64) |>.map fun (s, t) => ((s.bucket, s.sampled, s.tsSum, s.vSum, t), s))
     (fun ((_, _, _, _, t), s) => (.ok (runS s (Sampler_process s t [200, 1, 0, 0])) : R String))
     (fun ((_, _, _, _, t), s) => .ok (showP (samplerProc s t [200, 1, 0, 0])))
+  -- push_line: payload length x range x timestamp; compare the decisions (error class / new range / the two actions)
+  let plShow := fun (r : R ((SeriesView × List CatchUp) × Unit)) => (match r with
+    | .error f => reprR (.error f : R Nat)
+    | .ok ((v, acts), _) => s!"ok {repr v.range} {repr acts}")
+  let rangesP : List (Option (Nat × Nat)) := [none, some (5, 9), some (0, 18446744073709551615)]
+  firstDiff "ByteSeries::push_line" ((pairs (pairs rangesP [0, 9, 10, 18446744073709551615]) ([[1, 2, 3, 4], [1, 2, 3], [1, 2, 3, 4, 5], []] : List Bytes)).map fun ((r, t), pl) => (r, t, pl))
+    (fun (r, t, pl) => (.ok (plShow (ByteSeries_push_line ⟨{ p := 4, dataLen := 0, entries := [], lastFull := none, lastTime := none }, r⟩ t pl)) : R String))
+    (fun (r, t, pl) => .ok (if pl.length ≠ 4 then "err WrongLineLength" else match rangeUpdate r t with
+      | .error _ => "err TimeNotAfterLast"
+      | .ok r' => s!"ok {repr r'} {repr [CatchUp.push t pl, CatchUp.cache t pl]}"))
   let ranges : List (Option (Nat × Nat)) := none :: (pairs [0, 5, 65535] [5, 65535, 18446744073709551615]).filterMap fun (a, b) => if a ≤ b then some (some (a, b)) else none
   firstDiff "TimeRange::update" (pairs ranges vals64) (fun (r, t) => TimeRange_update r t)
     (fun (r, t) => match rangeUpdate r t with | .ok r' => .ok (r', ()) | .error _ => .error (.err "TimeNotAfterLast"))
